@@ -92,3 +92,69 @@ inline int generic_main(int argc, char **argv) {
 }
 
 }  // namespace vf
+
+// ---------------------------------------------------------------------------
+// Entry points. VF_DEFINE_MAIN expands to main() (rapidcheck driver / replay) or, with -DVF_FUZZ_MAIN, to nothing:
+// the libFuzzer entry below then drives the same target::run_case from coverage-guided byte strings
+// (6 bytes per op: weighted opcode + 5 arguments), so rapidcheck and libFuzzer share interpreter, oracles and
+// replay format.
+#ifndef VF_FUZZ_MAIN
+#define VF_DEFINE_MAIN int main(int argc, char **argv) { return vf::generic_main(argc, argv); }
+#else
+#define VF_DEFINE_MAIN
+namespace vf {
+struct FuzzState {
+  std::string id, out, stats;
+  Stats st;
+  int table[256];
+  uint64_t n = 0;
+  FuzzState() {
+    id = getenv_s("VF_FUZZ_ID", "C01");
+    out = getenv_s("VF_FUZZ_OUT", ".");
+    stats = out + "/stats.json";
+    scratch_dir() = out;
+    std::vector<std::pair<int, int>> w;
+    long total = 0;
+    for (auto &pr : target::weights(id)) if (pr.first > 0) { w.push_back(pr); total += pr.first; }
+    for (int i = 0; i < 256; ++i) {
+      long pos = (long)i * total / 256, acc = 0;
+      int code = w.back().second;
+      for (auto &pr : w) { acc += pr.first; if (pos < acc) { code = pr.second; break; } }
+      table[i] = code;
+    }
+  }
+};
+inline FuzzState &fuzz_state() { static FuzzState s; return s; }
+}  // namespace vf
+
+extern "C" int LLVMFuzzerTestOneInput(const uint8_t *data, size_t size) {
+  vf::FuzzState &S = vf::fuzz_state();
+  vf::Program p;
+  for (size_t i = 0; i + 6 <= size && p.size() < 160; i += 6) {
+    vf::Op o;
+    o.code = S.table[data[i]];
+    for (int k = 0; k < 5; ++k) o.a[k] = data[i + 1 + (size_t)k];
+    p.push_back(o);
+  }
+  if (const char *dec = getenv("VF_FUZZ_DECODE")) {
+    vf::write_file(dec, "#! id " + S.id + "\n" + vf::program_to_text(p, target::optable()));
+    return 0;
+  }
+  if (p.empty()) return 0;
+  vf::CaseResult r = target::run_case(S.id, p, S.st);
+  uint64_t h = vf::hash_program(p);
+  if (S.st.nontrivial.size() < 1500000) S.st.note_case(h, r.nontrivial, vf::render(p, r));
+  else ++S.st.evaluations;
+  if (++S.n % 100 == 0) S.st.write(S.stats, false, "");
+  if (!r.ok) {
+    char hb[32];
+    snprintf(hb, sizeof hb, "%016llx", (unsigned long long)h);
+    vf::write_file(S.out + "/fail-" + hb + ".txt", "#! id " + S.id + "\n#! msg " + r.msg + "\n" + vf::render(p, r));
+    S.st.write(S.stats, true, r.msg);
+    __builtin_trap();
+  }
+  static bool reg = false;
+  if (!reg) { reg = true; atexit([] { vf::fuzz_state().st.write(vf::fuzz_state().stats, false, ""); }); }
+  return 0;
+}
+#endif
